@@ -28,7 +28,12 @@ var hostileDescriptions = []string{
 	`{"type":"answer","sdp":"v=0\r\no=- 0 0 IN IP4 0\r\ns=-\r\nt=0 0\r\nr=1\r\n"}`,
 	`{"type":"rollback","sdp":""}`,
 	`{"type":"offer","sdp":"` + strings.Repeat("a=x\\r\\n", 2000) + `"}`,
+	// a description with ICE credentials, fingerprint and setup at session level and no media section
+	`{"type":"answer","sdp":"` + sessionLevelOnlySDP + `"}`,
+	`{"type":"offer","sdp":"` + sessionLevelOnlySDP + `"}`,
 }
+
+const sessionLevelOnlySDP = `v=0\r\no=- 4358805017720277108 2 IN IP4 8.8.8.8\r\ns=-\r\nt=0 0\r\na=ice-ufrag:aMAZ\r\na=ice-pwd:jcHb08Jjgrazp2dzjdrvPPvV\r\na=fingerprint:sha-256 C8:88:EE:B9:E7:02:2E:21:37:ED:7A:D1:EB:2B:A3:15:A2:3B:5B:1C:3D:D4:D5:1F:06:CF:52:40:03:F8:DD:66\r\na=setup:active\r\n`
 
 // sysC13: hostile documents relayed by the broker to a real proxy (as the
 // client's offer) and to a real client (as the proxy's answer); the processes
